@@ -52,12 +52,15 @@ CLAIMS = {
  'C01': dict(
    text="Lean theorems (all inputs): whatever text Event::from_json accepts, the bytes written are exactly the encoding of an event whose seven "
         "parts are within their fields and which every accessor reads back; consumed <= input; integer literals are read exactly and "
-        "created_at >= 2^64 / kind > 65535 with any number of digits are rejected, never wrapped. The completeness direction (every NIP-01 text - "
-        "any member order, whitespace, escapes, unknown members - is accepted with the independent parser's values, consumed = offset past the "
-        "brace) is decided by correspondence: CST-generated texts, Python json as the independent parser on text[:consumed], implementation vs model "
-        "on whole buffers; all 5040 orders in the thorough tier.",
-   note=PROOF_NOTE + "PARTIAL: parseEvent_complete (acceptance of every NIP-01 text) is not proved; it rests on the sampled correspondence. Duplicate known keys / escaped spellings of known keys are outside the soundness clause (RFC 8259 s.4).",
-   technique="Lean 4 proof (member-loop invariant, decimal-literal reader lemmas) + differential correspondence with Python json as independent parser",
+        "created_at >= 2^64 / kind > 65535 with any number of digits are rejected, never wrapped. Completeness for texts whose member values are rendered as "
+        "as_json renders them (every UTF-8 string, every escape as_json uses, every size): the seven members, each once, in ANY of the 5040 orders, with ANY "
+        "whitespace after the brace, before each key, around each colon and after each value, after any leading whitespace and followed by anything, are "
+        "accepted with exactly the event's values into any sufficient buffer, consuming up to the closing brace (any_order_any_whitespace; incl. content "
+        "before tags: skipped, then read once the tags are in place). Completeness for the rest of JSON (other escape spellings, unknown members, duplicate "
+        "members) is decided by correspondence: CST-generated texts, Python json as the independent parser on text[:consumed], implementation vs model on "
+        "whole buffers; all 5040 orders in the thorough tier.",
+   note=PROOF_NOTE + "PARTIAL: acceptance of every NIP-01 text incl. alternative escape spellings (\\/ , \\u0041, surrogate pairs) and unknown members is not a theorem; it rests on the sampled correspondence and the exhaustive \\uXXXX sweep. Duplicate known keys / escaped spellings of known keys are outside the soundness clause (RFC 8259 s.4).",
+   technique="Lean 4 proof (member-loop invariant over any member order, seen-set state invariant, reader lemmas) + differential correspondence with Python json as independent parser",
    design="6/C01"),
  'C02': dict(
    text="Lean theorems: for every accepted text and every prior buffer content, Event::from_json writes exactly the bytes Event::from_parts writes "
